@@ -63,7 +63,7 @@ class C20(Prop):
     components = {"real": ["baize.wsgi.middleware (NextRequest/NextResponse/ensure_next/middleware)", "baize.asgi.middleware (CachedStream/NextResponse/middleware)",
                            "baize.*.shortcut (request_response/decorator)", "all response classes", "tempfile.SpooledTemporaryFile"],
                   "stub": ["ASGI/WSGI server peers", "event loop clock/selector, executor inlined at seeded instants", "SimThreads for WSGI SSE"]}
-    hard_probes = ("depth_3", "editing_middleware", "raw_app_repeated_headers", "raw_app_restarts_response", "raw_app_latin1_header", "inner_raises_before_start", "inner_raises_after_start", "zerocopy_offered", "empty_file",
+    hard_probes = ("depth_3", "editing_middleware", "raw_app_repeated_headers", "raw_app_restarts_response", "raw_app_latin1_header", "raw_app_zerocopy", "inner_raises_before_start", "inner_raises_after_start", "zerocopy_offered", "empty_file",
                    "cached_stream_rolled_to_disk", "executor_latency")
     quick_runs = 120000
     thorough_runs = 1500000
@@ -98,6 +98,8 @@ class C20(Prop):
             plan["raw"] = {"status": t.choice([200, 201, 404, 299]), "reason": t.choice(["OK", "Fine", "Whatever You Say"]),
                            "headers": t.choice(RAW_HEADER_SETS), "chunks": [t.choice([b"a", b"bb", b"", b"chunk", b"x" * 70000]) for _ in range(t.draw(4))],
                            "as_list": t.draw(2) == 0, "omit_headers_key": t.draw(5) == 0,
+                           # an ASGI app that uses the zero-copy extension itself (when offered): (seek position, offset, count) per message
+                           "zc": t.choice([None, None, [(7, None, None)], [(0, 100, 50), (3, None, 20)], [(40, None, 10), (0, None, None)]]),
                            # PEP 3333: start_response may be called again with exc_info before any body was sent
                            "restart": t.choice([None, None, None, {"status": 500, "headers": [("Content-Type", "text/plain"), ("X-Error", "1")]},
                                                 {"status": 503, "headers": [("Set-Cookie", "err=1"), ("Retry-After", "5")]}])}
@@ -178,6 +180,20 @@ class C20(Prop):
                     await send(msg)
                     for c in raw["chunks"]:
                         await send({"type": "http.response.body", "body": c, "more_body": True})
+                    if raw.get("zc") and "http.response.zerocopysend" in scope.get("extensions", {}):
+                        import os
+                        fd = os.open(self.fs.path("m/mid.bin"), os.O_RDONLY)
+                        try:
+                            for pos, off, cnt in raw["zc"]:
+                                os.lseek(fd, pos, os.SEEK_SET)      # the descriptor's own position matters when no offset is given
+                                m = {"type": "http.response.zerocopysend", "file": fd, "more_body": True}
+                                if off is not None:
+                                    m["offset"] = off
+                                if cnt is not None:
+                                    m["count"] = cnt
+                                await send(m)
+                        finally:
+                            os.close(fd)
                     await send({"type": "http.response.body", "body": b""})
         for s in reversed(mws):
             if iface == "wsgi":
@@ -277,6 +293,8 @@ class C20(Prop):
             ctx.probe("raw_app_restarts_response")
         if plan["inner"] == "raw" and any(ord(c) > 127 for _, v in plan["raw"]["headers"] for c in v):
             ctx.probe("raw_app_latin1_header")
+        if plan["inner"] == "raw" and plan["raw"].get("zc") and plan["zerocopy"] and iface == "asgi":
+            ctx.probe("raw_app_zerocopy")
         if plan["inner"] == "view-raises":
             ctx.probe("inner_raises_before_start")
         if plan["inner"] == "view" and plan["recipe"].get("raise_at") is not None:
